@@ -239,21 +239,29 @@ func (f *Frame) assumeAllocated(v *Val) {
 	rec(v)
 }
 
+// Allocation model: objects are named by allocation order.  NEXT (state key
+// allocKey, an Int) is the first unused name; an object is allocated iff
+// 0 < r < NEXT.  A fresh object is r = NEXT; NEXT only grows.
 const allocKey = "ALLOC"
 
+var allocSort = IntS
+
+func allocatedIn(next, r *Term) *Term { return And(Lt(IntLit(0), r), Lt(r, next)) }
+
 func (f *Frame) isAlloc(r *Term) *Term {
-	a := f.st.Get(allocKey, ArrayS(IntS, BoolS))
+	a := f.st.Get(allocKey, allocSort)
 	f.E.noteVars(a)
-	return Or(Eq(r, IntLit(0)), Select(a, r))
+	f.assume(Ge(a, IntLit(1)), "allocation counter is positive")
+	return Or(Eq(r, IntLit(0)), allocatedIn(a, r))
 }
 
 func (f *Frame) newRef(hint string) *Term {
 	r := f.fresh(hint, IntS)
-	a := f.st.Get(allocKey, ArrayS(IntS, BoolS))
+	a := f.st.Get(allocKey, allocSort)
 	f.E.noteVars(a)
-	f.assume(And(Gt(r, IntLit(0)), Not(Select(a, r))), "fresh allocation")
+	f.assume(And(Ge(a, IntLit(1)), Eq(r, a)), "fresh allocation")
 	f.st = f.st.Clone()
-	f.st.Set(allocKey, ArrayS(IntS, BoolS), f.E.name(Store(a, r, True), f.prefix+"alloc"))
+	f.st.Set(allocKey, allocSort, f.E.name(Add(r, IntLit(1)), f.prefix+"alloc"))
 	return r
 }
 
@@ -499,12 +507,20 @@ func (f *Frame) valEq(x, y *Val, t types.Type) *Term {
 		if isZero(x.Base) {
 			return Eq(y.Base, IntLit(0))
 		}
+	case x.K == VTuple && y.K == VTuple && len(x.Fields) == len(y.Fields):
+		var cs []*Term
+		for i := range x.Fields {
+			cs = append(cs, f.valEq(x.Fields[i], y.Fields[i], nil))
+		}
+		return And(cs...)
 	case x.K == VStruct && y.K == VStruct:
 		var cs []*Term
 		for i := range x.Fields {
 			var ft types.Type
-			if st, ok := t.Underlying().(*types.Struct); ok && i < st.NumFields() {
-				ft = st.Field(i).Type()
+			if t != nil {
+				if st, ok := t.Underlying().(*types.Struct); ok && i < st.NumFields() {
+					ft = st.Field(i).Type()
+				}
 			}
 			cs = append(cs, f.valEq(x.Fields[i], y.Fields[i], ft))
 		}
